@@ -1,7 +1,7 @@
 #!/bin/bash
 # tools/run_seeded.sh <seeded dir> [tier]  : apply the seeded change to /repo, run the property's check, undo it.
 set -u
-d="$1"; tier="${2:-quick}"
+d="$(realpath "$1")"; tier="${2:-quick}"
 pid=$(python3 -c "import json,sys; print(json.load(open('$d/meta.json'))['property'])")
 cd /verif
 git -C /repo diff --quiet || { echo "/repo has uncommitted changes"; exit 2; }
